@@ -300,7 +300,7 @@ def nz (l : List Nat) : Prop := ∀ c ∈ l, c ≠ 0
 def RInv (fl : FnFlags) (p : List Nat) (s : SPos) (rp : List Nat) (skip : SPos) : Prop :=
   nz rp ∧ nz skip.rest ∧ p.length ≤ rp.length ∧
   (∃ seg pre, toks fl rp = seg ++ toks fl p ∧ skip.rest = pre ++ s.rest ∧ segM fl seg pre = true) ∧
-  Matches fl (.star (rp.head? == some cDot) :: toks fl rp) skip.rest
+  Matches fl (.star (dotNext fl rp) :: toks fl rp) skip.rest
 
 def CInv (fl : FnFlags) (p : List Nat) (s : SPos) : Option (List Nat × SPos) → Prop
   | none => Matches fl (toks fl p) s.rest
@@ -525,7 +525,7 @@ theorem wfn_complete (fl : FnFlags) (hper : fl.period = false) :
       · simp only [c1, if_true]
         rw [if_pos c1] at htk
         -- the `*` at hand can make the rest match from here
-        have hstar : Matches fl (.star (p1.head? == some cDot) :: toks fl p1) s.rest := by
+        have hstar : Matches fl (.star (dotNext fl p1) :: toks fl p1) s.rest := by
           cases retry with
           | none => simp only [CInv] at hc; rw [htk] at hc; exact hc
           | some rs =>
@@ -533,38 +533,32 @@ theorem wfn_complete (fl : FnFlags) (hper : fl.period = false) :
             obtain ⟨_, _, _, ⟨seg, pre, h4, h5, h6⟩, h7⟩ := hc
             rw [h4, htk, h5] at h7
             exact greedy fl _ _ seg pre _ _ h6 h7
-        have hnodot : ¬ ((p1.head? == some cDot && disallow fl s) = true) := by
+        have hnodot : ¬ ((dotNext fl p1 && disallow fl s) = true) := by
           intro hcond
-          simp only [Bool.and_eq_true, beq_iff_eq] at hcond
+          simp only [Bool.and_eq_true] at hcond
           obtain ⟨hh, hd⟩ := hcond
-          cases p1 with
-          | nil => simp at hh
-          | cons q p2 =>
-            simp only [List.head?_cons, Option.some.injEq] at hh
-            subst hh
-            have htk2 : toks fl (cDot :: p2) = .lit cDot :: toks fl p2 := by
-              rw [toks_cons]; simp [cDot, cStar, cQuest, cLB, cBSl]
-            rw [htk2] at hstar
-            obtain ⟨prev, rest⟩ := s
-            cases rest with
-            | nil =>
-              rcases star_inv fl _ _ _ hstar with hm | ⟨x, r, he, _, _⟩
-              · obtain ⟨x, s', he, _, _⟩ := matches_one_inv fl _ _ _ rfl hm
-                cases he
-              · cases he
-            | cons x r =>
-              rw [disallow_np fl hper] at hd
-              have hxw : okWild fl x = false := by simpa using hd
-              rcases star_inv fl _ _ _ hstar with hm | ⟨x', r', he, hx', _⟩
-              · obtain ⟨x', s', he, hx', _⟩ := matches_one_inv fl _ _ _ rfl hm
-                simp only [List.cons.injEq] at he
-                obtain ⟨rfl, rfl⟩ := he
-                have : x = cDot := cmpFold_nonletter fl cDot x (by decide) (by decide) hx'
-                subst this
-                rw [okWild_ne_slash fl cDot (by decide)] at hxw; cases hxw
-              · simp only [List.cons.injEq] at he
-                obtain ⟨rfl, rfl⟩ := he
-                rw [hx'] at hxw; cases hxw
+          obtain ⟨p2, htk2⟩ := dotNext_toks fl p1 hh
+          rw [htk2] at hstar
+          obtain ⟨prev, rest⟩ := s
+          cases rest with
+          | nil =>
+            rcases star_inv fl _ _ _ hstar with hm | ⟨x, r, he, _, _⟩
+            · obtain ⟨x, s', he, _, _⟩ := matches_one_inv fl _ _ _ rfl hm
+              cases he
+            · cases he
+          | cons x r =>
+            rw [disallow_np fl hper] at hd
+            have hxw : okWild fl x = false := by simpa using hd
+            rcases star_inv fl _ _ _ hstar with hm | ⟨x', r', he, hx', _⟩
+            · obtain ⟨x', s', he, hx', _⟩ := matches_one_inv fl _ _ _ rfl hm
+              simp only [List.cons.injEq] at he
+              obtain ⟨rfl, rfl⟩ := he
+              have : x = cDot := cmpFold_nonletter fl cDot x (by decide) (by decide) hx'
+              subst this
+              rw [okWild_ne_slash fl cDot (by decide)] at hxw; cases hxw
+            · simp only [List.cons.injEq] at he
+              obtain ⟨rfl, rfl⟩ := he
+              rw [hx'] at hxw; cases hxw
         simp only [hnodot, if_false]
         apply ih p1 s (some (p1, s)) hp1 hs0
         · exact ⟨hp1, hs0, Nat.le_refl _, ⟨[], [], rfl, rfl, rfl⟩, hstar⟩
